@@ -131,6 +131,7 @@ package asr
 //@   call (*tree.Node).SetId [node_i_of_the_list_gets_identifier_i] a0 == nodes[rangeindex + 1] && a1 == rangeindex + 1
 //@   call asr.NewAncestralSequence [one_column_per_site_one_count_per_character] a1 == len(charToIndex)
 //@   call asr.parsimonyUPPASS [the_up_pass_starts_at_the_root] a0 == t.root && a1 == nil && a3 == seqs && a4 == nsteps && a5 == charToIndex
+//@   call asr.parsimonyUPPASS [every_character_of_the_alphabet_the_gap_and_the_other_character_included_has_an_index] len(alphabet) >= 2 && alphabet[len(alphabet) - 2] == 45 && alphabet[len(alphabet) - 1] == 42 && (forall k int :: {alphabet[k]} 0 <= k && k < len(alphabet) ==> has(a5, alphabet[k]) && 0 <= a5[alphabet[k]] && a5[alphabet[k]] < len(alphabet))
 //@   call asr.parsimonyDOWNPASS [the_down_pass_runs_for_downpass_and_deltran_resolving_at_random_only_as_the_last_pass] (algo == ALGO_DOWNPASS || algo == ALGO_DELTRAN) && a0 == t.root && a1 == nil && a3 == seqs && a4 == upseqs && a5 == charToIndex && a6 == (algo == ALGO_DOWNPASS && randomResolve)
 //@   call asr.parsimonyDELTRAN [deltran_refines_after_the_down_pass] algo == ALGO_DELTRAN && a0 == t.root && a1 == nil && a3 == seqs && a4 == charToIndex && a5 == randomResolve && ghost(ncalls_parsimonyDOWNPASS) == old(ghost(ncalls_parsimonyDOWNPASS)) + 1
 //@   call asr.parsimonyACCTRAN [acctran_refines_right_after_the_up_pass] algo == ALGO_ACCTRAN && a0 == t.root && a1 == nil && a3 == seqs && a4 == charToIndex && a5 == randomResolve && ghost(ncalls_parsimonyDOWNPASS) == old(ghost(ncalls_parsimonyDOWNPASS))
